@@ -122,22 +122,7 @@ class SingleFaults(Contract):
         # endpoint of a mismatched message must itself raise (the peer, which
         # holds a perfectly good operation, need not)
         if fault is not None and ctxs and len(ctxs) == inst["size"]:
-            nsend, nrecv = {}, {}
-            for r, c in ctxs.items():
-                live_s, live_r = D.live_ops(c.outputs)
-                for dest, tag in live_s:
-                    k = (r, dest, repr(tag))
-                    nsend[k] = nsend.get(k, 0) + 1
-                for src, tag in live_r:
-                    k = (src, r, repr(tag))
-                    nrecv[k] = nrecv.get(k, 0) + 1
-            owners = set()
-            for k in set(nsend) | set(nrecv):
-                if nsend.get(k, 0) != 1:
-                    owners.add(k[0])
-                if nrecv.get(k, 0) != 1:
-                    owners.add(k[1])
-            owners &= set(range(inst["size"]))
+            owners = D.fault_owners(ctxs, inst["size"])
             if inst["kind"] == "pair" and not owners:
                 # the two faults cancel: every message has exactly one send
                 # and one receive again.  Then either the program is accepted
@@ -189,15 +174,17 @@ class SingleFaults(Contract):
                            for r, (st, e) in raised.items()})
 
     def replay(self, inst, clause, model, info):
-        return FAULT_REPLAY.format(**{k: inst[k] for k in (
-            "prog", "size", "staple", "kind", "rank", "index")})
+        return FAULT_REPLAY.format(pair=inst.get("pair"), **{
+            k: inst[k] for k in ("prog", "size", "staple", "kind", "rank",
+                                 "index")})
 
 
 FAULT_REPLAY = '''
 import sys
 sys.path.insert(0, "/verif")
 from pyvc.replay_dist import replay_fault
-replay_fault({prog!r}, {size!r}, {staple!r}, {kind!r}, {rank!r}, {index!r})
+replay_fault({prog!r}, {size!r}, {staple!r}, {kind!r}, {rank!r}, {index!r},
+             pair={pair!r})
 '''
 
 
